@@ -3509,6 +3509,435 @@ theorem wrapper_canResume_sound (cs : List Cache) (seq : Nat) (pos : Int) (h : w
     exact List.all_eq_true.mp h c hc
   exact canResume_sound c seq pos w hinv hw hfr hnd hcr p h1 h2
 
+/-! ### the ideal windowed history, with approved resumes and forks in the history -/
+
+theorem nodup_of_nodup_map {α β} (f : α → β) (l : List α) (h : (l.map f).Nodup) : l.Nodup :=
+  List.Pairwise.of_map f (fun a b hab he => hab (by rw [he])) h
+
+theorem eq_of_nodup_map {α β} (f : α → β) (l : List α) (h : (l.map f).Nodup) (a b : α) (ha : a ∈ l) (hb : b ∈ l)
+    (hf : f a = f b) : a = b := by
+  induction l with
+  | nil => simp at ha
+  | cons x xs ih =>
+    simp only [List.map_cons, List.nodup_cons] at h
+    rcases List.mem_cons.mp ha with rfl | ha' <;> rcases List.mem_cons.mp hb with rfl | hb'
+    · rfl
+    · exact absurd (List.mem_map.mpr ⟨b, hb', hf.symm⟩) h.1
+    · exact absurd (List.mem_map.mpr ⟨a, ha', hf⟩) h.1
+    · exact ih h.2 ha' hb'
+
+/-- what sequence `q` holds in `S` it also holds in `I`, with the same position, data and shift -/
+def SubQ (S I : Spec) : Prop := ∀ q e, e ∈ S → q ∈ e.seqs → ∃ e' ∈ I, q ∈ e'.seqs ∧ key e' = key e
+
+theorem visible_pos_sublist (W : Option Int) (s : Spec) (q : Nat) (p : Int) :
+    ((visible W s q p).map (·.pos)).Sublist (seqPositions s q) := by
+    unfold visible seqPositions
+    apply List.Sublist.map
+    induction s with
+    | nil => exact List.Sublist.refl _
+    | cons x xs ih =>
+      by_cases hv : vis W q p x = true
+      · have hq : q ∈ x.seqs := by
+          simp only [vis, Bool.and_eq_true, decide_eq_true_eq] at hv; exact hv.1.1
+        rw [List.filter_cons_of_pos hv, List.filter_cons_of_pos (by simpa using hq)]
+        exact List.Sublist.cons_cons _ ih
+      · rw [List.filter_cons_of_neg hv]
+        by_cases hq : q ∈ x.seqs
+        · rw [List.filter_cons_of_pos (by simpa using hq)]; exact List.Sublist.cons _ ih
+        · rw [List.filter_cons_of_neg (by simpa using hq)]; exact ih
+
+theorem visible_keys_nodup (W : Option Int) (s : Spec) (q : Nat) (p : Int) (h : (seqPositions s q).Nodup) :
+    ((visible W s q p).map key).Nodup := by
+  have hn : ((visible W s q p).map (·.pos)).Nodup := h.sublist (visible_pos_sublist W s q p)
+  have : ((visible W s q p).map key).map (·.1) = (visible W s q p).map (·.pos) := by
+    simp [List.map_map, Function.comp_def, key]
+  exact nodup_of_nodup_map (·.1) _ (by rw [this]; exact hn)
+
+/-- **One query.**  If everything `q` holds in `S` it holds in `I` as well, positions of `q` are distinct and
+    non-negative in `I`, `I` holds nothing of `q` at or after `p`, and `S` holds the complete window below `p`,
+    then a query at `(q, p)` sees the same entries in `S` and in `I`. -/
+theorem visible_complete_eq (w : Int) (S I : Spec) (q : Nat) (p : Int) (hsub : SubQ S I)
+    (hndI : (seqPositions I q).Nodup) (hndS : (seqPositions S q).Nodup)
+    (hnonneg : ∀ e ∈ I, q ∈ e.seqs → 0 ≤ e.pos) (hbelow : ∀ e ∈ I, q ∈ e.seqs → e.pos < p)
+    (hcomplete : ∀ p', max 0 (p - w) ≤ p' → p' < p → ∃ e ∈ S, q ∈ e.seqs ∧ e.pos = p') :
+    ((visible (some w) S q p).map key).Perm ((visible (some w) I q p).map key) := by
+  rw [List.perm_ext_iff_of_nodup (visible_keys_nodup _ S q p hndS) (visible_keys_nodup _ I q p hndI)]
+  intro k
+  have hvis : ∀ (e e' : Entry), key e' = key e → q ∈ e.seqs → q ∈ e'.seqs →
+      vis (some w) q p e = true → vis (some w) q p e' = true := by
+    intro e e' hk hq hq' hv
+    have hp : e'.pos = e.pos := by
+      have := congrArg (·.1) hk; simpa [key] using this
+    simp only [vis, inWindow, hq, hq', decide_true, Bool.true_and, hp] at hv ⊢
+    exact hv
+  constructor
+  · intro hk
+    obtain ⟨e, he, rfl⟩ := List.mem_map.mp hk
+    obtain ⟨heS, hv⟩ := List.mem_filter.mp he
+    have hq : q ∈ e.seqs := by
+      simp only [vis, Bool.and_eq_true, decide_eq_true_eq] at hv; exact hv.1.1
+    obtain ⟨e', he'I, hq', hkey⟩ := hsub q e heS hq
+    exact List.mem_map.mpr ⟨e', List.mem_filter.mpr ⟨he'I, hvis e e' hkey hq hq' hv⟩, hkey⟩
+  · intro hk
+    obtain ⟨e', he', rfl⟩ := List.mem_map.mp hk
+    obtain ⟨he'I, hv⟩ := List.mem_filter.mp he'
+    have hq' : q ∈ e'.seqs := by
+      simp only [vis, Bool.and_eq_true, decide_eq_true_eq] at hv; exact hv.1.1
+    have hlt := hbelow e' he'I hq'
+    have hge0 := hnonneg e' he'I hq'
+    have hwin : ¬ e'.pos < p - w := by
+      simp only [vis, inWindow, Bool.and_eq_true, Bool.not_eq_true', decide_eq_false_iff_not] at hv
+      exact hv.2
+    obtain ⟨e, heS, hq, hpos⟩ := hcomplete e'.pos (by omega) hlt
+    obtain ⟨e'', he''I, hq'', hkey⟩ := hsub q e heS hq
+    -- `e''` and `e'` are entries of `q` in `I` at the same position: the same entry
+    have hsame : e'' = e' := by
+      have hkp : e''.pos = e.pos := by
+        have := congrArg (·.1) hkey; simpa [key] using this
+      apply eq_of_nodup_map (fun (x : Entry) => x.pos) (I.filter (fun x => decide (q ∈ x.seqs))) hndI
+      · exact List.mem_filter.mpr ⟨he''I, by simpa using hq''⟩
+      · exact List.mem_filter.mpr ⟨he'I, by simpa using hq'⟩
+      · show e''.pos = e'.pos
+        omega
+    subst hsame
+    refine List.mem_map.mpr ⟨e, List.mem_filter.mpr ⟨heS, hvis e'' e hkey.symm hq'' hq hv⟩, hkey.symm⟩
+
+theorem subQ_filterMap_left (f : Entry → Option Entry) (S I : Spec)
+    (hf : ∀ x y, f x = some y → key y = key x ∧ ∀ q ∈ y.seqs, q ∈ x.seqs) (h : SubQ S I) : SubQ (S.filterMap f) I := by
+  intro q e he hq
+  obtain ⟨x, hx, hxy⟩ := List.mem_filterMap.mp he
+  obtain ⟨hk, hs⟩ := hf x e hxy
+  obtain ⟨e', he', hq', hk'⟩ := h q x hx (hs q hq)
+  exact ⟨e', he', hq', hk'.trans hk.symm⟩
+
+theorem evictEntry_keeps (seq : Nat) (thr : Int) (x y : Entry) (h : evictEntry seq thr x = some y) :
+    key y = key x ∧ ∀ q ∈ y.seqs, q ∈ x.seqs := by
+  unfold evictEntry at h
+  split at h
+  · simp only at h
+    split at h
+    · cases h
+    · cases h; exact ⟨rfl, fun q hq => (List.mem_filter.mp hq).1⟩
+  · cases h; exact ⟨rfl, fun q hq => hq⟩
+
+theorem subQ_specSlide (w : Int) (b : List Tok) (S I : Spec) (h : SubQ S I) : SubQ (specSlide S w b) I := by
+  unfold specSlide
+  generalize batchSeqs b = seqs
+  induction seqs generalizing S with
+  | nil => exact h
+  | cons seq rest ih =>
+    simp only [List.foldl_cons]
+    cases lowest b seq with
+    | none => exact ih S h
+    | some low => exact ih _ (subQ_filterMap_left _ S I (evictEntry_keeps seq _) h)
+
+theorem subQ_store (S I : Spec) (batch : List (Tok × Nat)) (h : SubQ S I) : SubQ (KV.store S batch) (KV.store I batch) := by
+  intro q e he hq
+  simp only [KV.store, List.mem_append] at he ⊢
+  rcases he with he | he
+  · obtain ⟨e', he', hq', hk⟩ := h q e he hq
+    exact ⟨e', Or.inl he', hq', hk⟩
+  · exact ⟨e, Or.inr he, hq, rfl⟩
+
+theorem subQ_copyPrefix (S I : Spec) (src dst : Nat) (len : Int) (h : SubQ S I) :
+    SubQ (KV.copyPrefix S src dst len) (KV.copyPrefix I src dst len) := by
+  intro q e he hq
+  obtain ⟨x, hx, hxe⟩ := List.mem_filterMap.mp he
+  unfold cpEntry at hxe
+  simp only at hxe
+  split at hxe
+  · cases hxe
+  · cases hxe
+    simp only at hq
+    -- which owner of `x` explains `q`?
+    have hcase : (q ≠ dst ∧ q ∈ x.seqs) ∨ (q = dst ∧ src ≠ dst ∧ src ∈ x.seqs ∧ x.pos < len) := by
+      unfold cpSeqs at hq
+      simp only at hq
+      split at hq
+      · rename_i hc
+        rcases List.mem_append.mp hq with h1 | h1
+        · left; have := List.mem_filter.mp h1; exact ⟨by simpa using this.2, this.1⟩
+        · right
+          have hsrc := List.mem_filter.mp hc.1
+          exact ⟨by simpa using h1, by simpa using hsrc.2, hsrc.1, hc.2⟩
+      · left; have := List.mem_filter.mp hq; exact ⟨by simpa using this.2, this.1⟩
+    have hgo : ∀ (r : Nat) (x' : Entry), x' ∈ I → r ∈ x'.seqs → key x' = key x →
+        ((q ≠ dst ∧ r = q) ∨ (q = dst ∧ r = src ∧ src ≠ dst ∧ x.pos < len)) →
+        ∃ e' ∈ KV.copyPrefix I src dst len, q ∈ e'.seqs ∧ key e' = key x := by
+      intro r x' hx' hr hk hwhy
+      have hp : x'.pos = x.pos := by have := congrArg (·.1) hk; simpa [key] using this
+      have hq' : q ∈ cpSeqs src dst len x'.pos x'.seqs := by
+        unfold cpSeqs
+        simp only
+        rcases hwhy with ⟨hne, rfl⟩ | ⟨rfl, rfl, hsd, hlt⟩
+        · have hf : r ∈ x'.seqs.filter (· ≠ dst) := List.mem_filter.mpr ⟨hr, by simpa using hne⟩
+          split
+          · exact List.mem_append.mpr (Or.inl hf)
+          · exact hf
+        · have hf : r ∈ x'.seqs.filter (· ≠ q) := List.mem_filter.mpr ⟨hr, by simpa using hsd⟩
+          rw [if_pos ⟨hf, by omega⟩]
+          exact List.mem_append.mpr (Or.inr (by simp))
+      refine ⟨{ x' with seqs := cpSeqs src dst len x'.pos x'.seqs }, ?_, hq', by simpa [key] using hk⟩
+      apply List.mem_filterMap.mpr
+      refine ⟨x', hx', ?_⟩
+      unfold cpEntry
+      simp only
+      rw [if_neg]
+      intro h0; rw [h0] at hq'; simp at hq'
+    have hkx : key { x with seqs := cpSeqs src dst len x.pos x.seqs } = key x := rfl
+    rw [hkx]
+    rcases hcase with ⟨hne, hqx⟩ | ⟨hqd, hsd, hsx, hlt⟩
+    · obtain ⟨x', hx', hq', hk⟩ := h q x hx hqx
+      exact hgo q x' hx' hq' hk (Or.inl ⟨hne, rfl⟩)
+    · obtain ⟨x', hx', hq', hk⟩ := h src x hx hsx
+      exact hgo src x' hx' hq' hk (Or.inr ⟨hqd, rfl, hsd, hlt⟩)
+
+/-- with positions below the sentinel a removal to the end is never refused by the specification -/
+theorem specRemove_inf_some (s : Spec) (seq : Nat) (b : Int) (h : PosBoundS s) :
+    KV.remove s seq b maxInt32 = some (s.filterMap (rmEntry seq b maxInt32)) := by
+  unfold KV.remove
+  rw [if_neg]
+  intro hany
+  obtain ⟨x, hx, hr⟩ := List.any_eq_true.mp hany
+  have := h x hx
+  simp only [mustRefuse, Bool.and_eq_true, decide_eq_true_eq] at hr
+  omega
+
+theorem rmEntry_inf_from (seq : Nat) (b : Int) (x y : Entry) (hx : x.pos < maxInt32)
+    (h : rmEntry seq b maxInt32 x = some y) :
+    key y = key x ∧ ∀ q ∈ y.seqs, q ∈ x.seqs ∧ (q ≠ seq ∨ x.pos < b) := by
+  unfold rmEntry at h
+  split at h
+  · rename_i hs
+    split at h
+    · simp only at h
+      split at h
+      · cases h
+      · cases h
+        refine ⟨rfl, fun q hq => ?_⟩
+        have := List.mem_filter.mp hq
+        exact ⟨this.1, Or.inl (by simpa using this.2)⟩
+    · rename_i hin
+      split at h
+      · omega
+      · cases h
+        exact ⟨rfl, fun q hq => ⟨hq, Or.inr (by omega)⟩⟩
+  · rename_i hs
+    cases h
+    exact ⟨rfl, fun q hq => ⟨hq, Or.inl (fun he => hs (he ▸ hq))⟩⟩
+
+theorem rmEntry_inf_keeps (seq : Nat) (b : Int) (x : Entry) (q : Nat) (hx : x.pos < maxInt32) (hq : q ∈ x.seqs)
+    (hwhy : q ≠ seq ∨ x.pos < b) : ∃ y, rmEntry seq b maxInt32 x = some y ∧ q ∈ y.seqs ∧ key y = key x := by
+  unfold rmEntry
+  by_cases hs : seq ∈ x.seqs
+  · rw [if_pos hs]
+    by_cases hin : b ≤ x.pos ∧ x.pos < maxInt32
+    · rw [if_pos hin]
+      have hne : q ≠ seq := by rcases hwhy with h | h; exact h; omega
+      have hqf : q ∈ x.seqs.filter (· ≠ seq) := List.mem_filter.mpr ⟨hq, by simpa using hne⟩
+      simp only
+      rw [if_neg (by intro h0; rw [h0] at hqf; simp at hqf)]
+      exact ⟨_, rfl, hqf, rfl⟩
+    · rw [if_neg hin, if_neg (by omega)]
+      exact ⟨x, rfl, hq, rfl⟩
+  · rw [if_neg hs]; exact ⟨x, rfl, hq, rfl⟩
+
+theorem subQ_remove_inf (S I : Spec) (seq : Nat) (b : Int) (h : SubQ S I) (hbS : PosBoundS S) (hbI : PosBoundS I) :
+    SubQ (S.filterMap (rmEntry seq b maxInt32)) (I.filterMap (rmEntry seq b maxInt32)) := by
+  intro q e he hq
+  obtain ⟨x, hx, hxe⟩ := List.mem_filterMap.mp he
+  obtain ⟨hk, hfrom⟩ := rmEntry_inf_from seq b x e (hbS x hx) hxe
+  obtain ⟨hqx, hwhy⟩ := hfrom q hq
+  obtain ⟨x', hx', hq', hk'⟩ := h q x hx hqx
+  have hp : x'.pos = x.pos := by have := congrArg (·.1) hk'; simpa [key] using this
+  obtain ⟨y, hy, hqy, hky⟩ := rmEntry_inf_keeps seq b x' q (hbI x' hx') hq' (by rw [hp]; exact hwhy)
+  exact ⟨y, List.mem_filterMap.mpr ⟨x', hx', hy⟩, hqy, hky.trans (hk'.trans hk.symm)⟩
+
+/-- the contract of the ideal-window theorem: removals go to the end -/
+def NoMiddle : HOp → Prop
+  | .rm _ _ e => e = maxInt32
+  | _ => True
+
+/-- **The actual state stays inside the ideal one**: running the specification with the window (evictions) and
+    without it (`W = none`: nothing is ever evicted) next to the same cache, everything a sequence holds in the
+    first it holds in the second. -/
+theorem subQ_specStepT (w : Int) (S I : Spec) (op : HOp) (acc : Bool) (h : SubQ S I) (hnm : NoMiddle op)
+    (hbS : PosBoundS S) (hbI : PosBoundS I) :
+    SubQ (specStepT (some w) S op acc) (specStepT none I op acc) := by
+  cases op with
+  | fwd b ids =>
+    simp only [specStepT]
+    split
+    · exact subQ_store _ _ _ (subQ_specSlide w b S I h)
+    · exact subQ_specSlide w b S I h
+  | cp src dst len => exact subQ_copyPrefix S I src dst len h
+  | rm seq b e =>
+    have he : e = maxInt32 := hnm
+    subst he
+    simp only [specStepT]
+    split
+    · rw [specRemove_inf_some S seq b hbS, specRemove_inf_some I seq b hbI]
+      exact subQ_remove_inf S I seq b h hbS hbI
+    · exact h
+  | sc ex => exact h
+  | rsv b => exact h
+
+theorem subQ_runT (w : Int) (c : Cache) (S I : Spec) (ops : List HOp) (h : SubQ S I)
+    (hnm : ∀ op ∈ ops, NoMiddle op) (hbd : ∀ op ∈ ops, BoundedOp op) (hbS : PosBoundS S) (hbI : PosBoundS I) :
+    SubQ (runT (some w) c S ops) (runT none c I ops) := by
+  induction ops generalizing c S I with
+  | nil => exact h
+  | cons op rest ih =>
+    simp only [runT]
+    exact ih _ _ _ (subQ_specStepT w S I op _ h (hnm op (by simp)) hbS hbI)
+      (fun o ho => hnm o (by simp [ho])) (fun o ho => hbd o (by simp [ho]))
+      (posBoundS_specStepT _ S op _ hbS (hbd op (by simp))) (posBoundS_specStepT _ I op _ hbI (hbd op (by simp)))
+
+def NonNegS (s : Spec) : Prop := ∀ e ∈ s, 0 ≤ e.pos
+
+def NonNegOp : HOp → Prop
+  | .fwd b _ => ∀ t ∈ b, 0 ≤ t.pos
+  | _ => True
+
+theorem nonNegS_filterMap (f : Entry → Option Entry) (hf : ∀ x y, f x = some y → y.pos = x.pos) (s : Spec)
+    (h : NonNegS s) : NonNegS (s.filterMap f) := by
+  intro y hy
+  obtain ⟨x, hx, hxy⟩ := List.mem_filterMap.mp hy
+  rw [hf x y hxy]; exact h x hx
+
+theorem pos_of_key {x y : Entry} (h : key y = key x) : y.pos = x.pos := by
+  have := congrArg (·.1) h; simpa [key] using this
+
+theorem nonNegS_specStepT (W : Option Int) (s : Spec) (op : HOp) (acc : Bool) (h : NonNegS s) (hb : PosBoundS s)
+    (hnm : NoMiddle op) (hnn : NonNegOp op) : NonNegS (specStepT W s op acc) := by
+  cases op with
+  | fwd b ids =>
+    have h1 : NonNegS (match W with | none => s | some w => specSlide s w b) := by
+      cases W with
+      | none => exact h
+      | some w =>
+        simp only
+        unfold specSlide
+        generalize batchSeqs b = seqs
+        induction seqs generalizing s with
+        | nil => exact h
+        | cons seq rest ih =>
+          simp only [List.foldl_cons]
+          cases lowest b seq with
+          | none => exact ih s h hb
+          | some low =>
+            refine ih _ (nonNegS_filterMap _ (fun x y hxy => pos_of_key (evictEntry_keeps seq _ x y hxy).1) s h) ?_
+            exact posBoundS_filterMap _ (fun x y hxy => by rw [pos_of_key (evictEntry_keeps seq _ x y hxy).1]; exact Int.le_refl _) s hb
+    simp only [specStepT]
+    split
+    · intro e he
+      simp only [KV.store, List.mem_append, List.mem_map] at he
+      rcases he with he | ⟨t, ht, rfl⟩
+      · exact h1 e he
+      · exact hnn t.1 (List.of_mem_zip ht).1
+    · exact h1
+  | cp src dst len =>
+    apply nonNegS_filterMap _ _ s h
+    intro x y hxy
+    unfold cpEntry at hxy
+    simp only at hxy
+    split at hxy
+    · cases hxy
+    · cases hxy; rfl
+  | rm seq b e =>
+    have he : e = maxInt32 := hnm
+    subst he
+    simp only [specStepT]
+    split
+    · rw [specRemove_inf_some s seq b hb]
+      simp only [Option.getD_some]
+      intro y hy
+      obtain ⟨x, hx, hxy⟩ := List.mem_filterMap.mp hy
+      rw [pos_of_key (rmEntry_inf_from seq b x y (hb x hx) hxy).1]
+      exact h x hx
+    · exact h
+  | sc ex => exact h
+  | rsv b => exact h
+
+theorem nonNegS_runT (W : Option Int) (c : Cache) (s : Spec) (ops : List HOp) (h : NonNegS s) (hb : PosBoundS s)
+    (hnm : ∀ op ∈ ops, NoMiddle op) (hnn : ∀ op ∈ ops, NonNegOp op) (hbd : ∀ op ∈ ops, BoundedOp op) :
+    NonNegS (runT W c s ops) := by
+  induction ops generalizing c s with
+  | nil => exact h
+  | cons op rest ih =>
+    simp only [runT]
+    exact ih _ _ (nonNegS_specStepT W s op _ h hb (hnm op (by simp)) (hnn op (by simp)))
+      (posBoundS_specStepT W s op _ hb (hbd op (by simp)))
+      (fun o ho => hnm o (by simp [ho])) (fun o ho => hnn o (by simp [ho])) (fun o ho => hbd o (by simp [ho]))
+
+/-- **The ideal windowed history, with approved resumes and forks in the history** (repaired tree, window `w`).
+    Run any history of forward passes (accepted or rejected), SetCausal, reserve passes, CopyPrefix and removals
+    to the end that keeps the contract — batches bring new, distinct, bounded, non-negative positions for their
+    sequences, both for the cache's state and for the IDEAL state in which nothing is ever evicted
+    (`runT none`).  Then for every token `(seq, pos)` of the next accepted batch such that the ideal state holds
+    nothing of `seq` at or after `pos` (the batch continues or resumes the sequence there) and `CanResume(seq, pos)`
+    approves on the state before the pass, the token is shown exactly what it would be shown if the cache had
+    never evicted anything: every entry ever stored or copied for its sequence and not removed, at a position
+    ≤ its own and inside the window.  (`CanResume` is what the runner consults before resuming; for a token
+    that simply continues its sequence it holds whenever the window is complete.) -/
+theorem window_exact_on_contract (v : Variant) (hv : v.fixDefrag = true) (hat : v.atomicRemove = true)
+    (hfr : v.fixResume = true) (w : Int) (maxSeq capacity maxBatch cachePad batchPad : Nat) (hs : Bool) (ops : List HOp)
+    (hsz : (Causal.init v (some w) maxSeq capacity maxBatch cachePad batchPad hs).cells.length ≤ maxInt)
+    (hcS : ContractRun (some w) (Causal.init v (some w) maxSeq capacity maxBatch cachePad batchPad hs) [] ops)
+    (hcI : ContractRun none (Causal.init v (some w) maxSeq capacity maxBatch cachePad batchPad hs) [] ops)
+    (hbd : ∀ op ∈ ops, BoundedOp op) (hnn : ∀ op ∈ ops, NonNegOp op)
+    (b : List Tok) (ids : List Nat) (hids : ids.length = b.length) :
+    let c0 := Causal.init v (some w) maxSeq capacity maxBatch cachePad batchPad hs
+    let c := ops.foldl stepH c0
+    (startForward c b).2 = .ok →
+    ∀ t ∈ b, canResume c t.seq t.pos = true →
+      (∀ e ∈ runT none c0 [] ops, t.seq ∈ e.seqs → e.pos < t.pos) →
+      ((exposedEntries (put (startForward c b).1 ids) t).map key).Perm
+        ((visible (some w) (KV.store (runT none c0 [] ops) (b.zip ids)) t.seq t.pos).map key) := by
+  intro c0 c hok t ht hres hbelow
+  have hwf := contractRun_wf _ _ _ _ hcS
+  have hnm : ∀ op ∈ ops, NoMiddle op := by
+    -- part of the contract
+    have aux : ∀ (c : Cache) (s : Spec) (ops : List HOp), ContractRun (some w) c s ops → ∀ op ∈ ops, NoMiddle op := by
+      intro c s ops
+      induction ops generalizing c s with
+      | nil => intro _ op hop; simp at hop
+      | cons o rest ih =>
+        intro h op hop
+        rcases List.mem_cons.mp hop with rfl | hop
+        · have := h.1
+          cases op <;> first | exact this | trivial
+        · exact ih _ _ h.2.2 op hop
+    exact aux _ _ _ hcS
+  have h1 := history_exposes_spec_total v hv hat (some w) maxSeq capacity maxBatch cachePad batchPad hs ops b ids
+    hsz hids hwf hok t ht
+  refine h1.trans ?_
+  have hinv := inv_run _ ops (inv_init v (some w) maxSeq capacity maxBatch cachePad batchPad hs hsz)
+  have hperm := refines_run_total c0 ops [] (by rw [abs_init])
+    (inv_init v (some w) maxSeq capacity maxBatch cachePad batchPad hs hsz) hv hat
+    (rowsFresh_init v (some w) maxSeq capacity maxBatch cachePad batchPad hs)
+    (freshEmpty_init v (some w) maxSeq capacity maxBatch cachePad batchPad hs) hwf
+  have hndS := nodupPos_runT (some w) c0 [] ops (fun q => by simp [seqPositions]) hcS
+  have hndI := nodupPos_runT none c0 [] ops (fun q => by simp [seqPositions]) hcI
+  have hsub := subQ_runT w c0 [] [] ops (fun q e he => by simp at he) hnm hbd (fun e he => by simp at he) (fun e he => by simp at he)
+  have hnnI := nonNegS_runT none c0 [] ops (fun e he => by simp at he) (fun e he => by simp at he) hnm hnn hbd
+  -- the window below `pos` is complete in the cache's state
+  have hndc : (seqPositions (abs c) t.seq).Nodup := by
+    have hp : (seqPositions (abs c) t.seq).Perm (seqPositions (runT (some w) c0 [] ops) t.seq) := (hperm.filter _).map _
+    exact hp.nodup_iff.mpr (hndS t.seq)
+  have hw : c.window = some w := (run_window _ ops).trans rfl
+  have hfix : c.v.fixResume = true := by
+    have : c.v = v := (run_v _ ops).trans rfl
+    rw [this]; exact hfr
+  have hcomplete : ∀ p', max 0 (t.pos - w) ≤ p' → p' < t.pos →
+      ∃ e ∈ runT (some w) c0 [] ops, t.seq ∈ e.seqs ∧ e.pos = p' := by
+    intro p' h1 h2
+    obtain ⟨e, he, hs, hp⟩ := canResume_sound c t.seq t.pos w hinv hw hfix hndc hres p' h1 h2
+    exact ⟨e, hperm.mem_iff.mp he, hs, hp⟩
+  rw [visible_store, visible_store (some w) (runT none c0 [] ops), List.map_append, List.map_append]
+  exact List.Perm.append_right _ (visible_complete_eq w _ _ t.seq t.pos hsub (hndI t.seq) (hndS t.seq)
+    (fun e he _ => hnnI e he) hbelow hcomplete)
+
 /-! ### Witnesses of the defects the model shares with the code -/
 
 def fwd (c : Cache) (b : List (Tok × Nat)) : Cache :=
@@ -3747,6 +4176,21 @@ theorem wrapper_clear_nonvacuous :
     ((wRemove cs 0 0 1).1.map (fun c => (abs c).map key)) ≠ (cs.map (fun c => (abs c).map key)) ∧
     ((wRemove (wRemove cs 0 0 1).1 0 0 maxInt32).1.map (fun c => (abs c).map key))
       = cs.map (fun c => (abs (Causal.remove c 0 0 maxInt32).1).map key) := by decide
+
+instance (op : HOp) : Decidable (NonNegOp op) := by
+  cases op <;> unfold NonNegOp <;> infer_instance
+
+/-- non-vacuity of `window_exact_on_contract` (audited): window 2, sequence 0 stores positions 0..4 one by one
+    (0 and 1 get evicted), sequence 1 is forked off its first 4 positions and resumed at 4: the history keeps both
+    contracts, `CanResume(1, 4)` approves, the ideal state holds nothing of sequence 1 at or after 4, the batch is
+    accepted — and the ideal state has 5 entries where the cache's has 3 -/
+theorem window_contract_nonvacuous :
+    let c0 := Causal.init { fixDefrag := true, fixResume := true, atomicRemove := true } (some 2) 2 16 4 1 1 true
+    let ops := [HOp.fwd [⟨0, 0⟩] [1], .fwd [⟨0, 1⟩] [2], .fwd [⟨0, 2⟩] [3], .fwd [⟨0, 3⟩] [4], .fwd [⟨0, 4⟩] [5], .cp 0 1 4]
+    ContractRun (some 2) c0 [] ops ∧ ContractRun none c0 [] ops ∧ (∀ op ∈ ops, BoundedOp op) ∧ (∀ op ∈ ops, NonNegOp op) ∧
+    (startForward (ops.foldl stepH c0) [⟨1, 4⟩]).2 = .ok ∧ canResume (ops.foldl stepH c0) 1 4 = true ∧
+    (runT none c0 [] ops).all (fun e => !(decide (1 ∈ e.seqs)) || decide (e.pos < 4)) = true ∧
+    (runT none c0 [] ops).length = 5 ∧ (runT (some 2) c0 [] ops).length = 3 := by decide
 
 /-- the cache's answers along a history -/
 def acceptTrace : Cache → List HOp → List Bool
